@@ -53,7 +53,7 @@ class Sched:
                     pick = self._pick()
                     if pick == tid:
                         break
-                if not self.cv.wait(timeout=5):
+                if not self.cv.wait(timeout=30):
                     self.deadlock = True
                     break
             self.choices.append((len(self.trace), sorted(self.waiting)))
@@ -263,7 +263,7 @@ class Env:
             for t in threads:
                 t.start()
             for t in threads:
-                t.join(timeout=20)
+                t.join(timeout=60)
         finally:
             P.pretty_dispatch = real_dispatch
             P._DEFERRED_DISPATCH_BY_NAME = real_deferred
